@@ -118,11 +118,33 @@ func (s *LocalStore) SaveAllocatorState(idCurrent, tsCurrent uint64) error {
 	if err := s.fs.WriteFile(tmp, payload, 0o644); err != nil {
 		return err
 	}
+	// The reply that hands these values out is sent right after this returns: the new
+	// checkpoint has to be on disk, not only in the page cache, before it replaces the old
+	// one, and the replacement itself has to be durable.
+	if err := syncFile(s.fs, tmp); err != nil {
+		return err
+	}
 	if err := s.fs.Rename(tmp, path); err != nil {
+		return err
+	}
+	if err := vfs.SyncDir(s.fs, s.workdir); err != nil {
 		return err
 	}
 	s.saved = state
 	return nil
+}
+
+// syncFile flushes the named file's content to stable storage.
+func syncFile(fs vfs.FS, name string) error {
+	f, err := fs.OpenFileHandle(name, os.O_RDWR, 0)
+	if err != nil {
+		return err
+	}
+	if err := f.Sync(); err != nil {
+		_ = f.Close()
+		return err
+	}
+	return f.Close()
 }
 
 // Close closes the underlying manifest manager.
@@ -143,7 +165,9 @@ func (s *LocalStore) loadAllocatorState() (AllocatorState, error) {
 		return AllocatorState{}, err
 	}
 	if len(data) == 0 {
-		return AllocatorState{}, nil
+		// The checkpoint is replaced atomically and never written empty: an empty file means
+		// its content was lost, and starting over from 1 would hand every value out again.
+		return AllocatorState{}, fmt.Errorf("pd/storage: allocator checkpoint %s is empty", path)
 	}
 	var out AllocatorState
 	if err := json.Unmarshal(data, &out); err != nil {
